@@ -25,6 +25,7 @@ structure Stg where
   outClosed : Bool     -- the stage's closer has closed its output channel and its error channel
   errbuf    : Bool     -- the one-slot buffer of the stage's error channel is full
   waiter    : Bool     -- the caller's waiter for this stage is still waiting
+  failed    : Bool := false  -- (ghost) some item has failed in this stage
 deriving Repr, DecidableEq
 
 /-- the stage has wound down: no worker of it is alive -/
@@ -37,6 +38,8 @@ structure Net where
   cancelled : Bool         -- ctx.Done() (what the workers watch) is closed
   ecancel   : Bool         -- the errgroup's derived context is cancelled
   returned  : Bool
+  sawErr    : Bool := false  -- (ghost) a waiter has received a stage's error: eg.Wait() returns it
+  callerCancelled : Bool := false  -- (ghost) the caller's context was cancelled before the call returned
 deriving Repr, DecidableEq
 
 /-- a worker of stage `b` has just taken an item: it processes it and ends up holding the result
@@ -44,7 +47,7 @@ deriving Repr, DecidableEq
 inductive Outcome (last : Bool) : Stg → Stg → Prop
   | ok   (b : Stg) : b.idle > 0 → last = false → Outcome last b { b with idle := b.idle - 1, send := b.send + 1 }
   | okLast (b : Stg) : b.idle > 0 → last = true → Outcome last b b
-  | fail (b : Stg) : b.idle > 0 → Outcome last b { b with idle := b.idle - 1, err := b.err + 1 }
+  | fail (b : Stg) : b.idle > 0 → Outcome last b { b with idle := b.idle - 1, err := b.err + 1, failed := true }
 
 /-- transitions of the library's goroutines -/
 inductive SysStep : Net → Net → Prop
@@ -84,7 +87,7 @@ inductive SysStep : Net → Net → Prop
   /-- the waiter of a stage receives the error: the errgroup cancels its context -/
   | recvErr (n : Net) (pre : List Stg) (a : Stg) (post : List Stg) :
       n.stages = pre ++ a :: post → a.errbuf = true → a.waiter = true →
-      SysStep n { n with stages := pre ++ { a with errbuf := false, waiter := false } :: post, ecancel := true }
+      SysStep n { n with stages := pre ++ { a with errbuf := false, waiter := false } :: post, ecancel := true, sawErr := true }
   /-- the waiter of a stage sees the stage's error channel closed (and drained) -/
   | recvClosed (n : Net) (pre : List Stg) (a : Stg) (post : List Stg) :
       n.stages = pre ++ a :: post → a.waiter = true → a.outClosed = true → a.errbuf = false →
@@ -98,7 +101,7 @@ inductive SysStep : Net → Net → Prop
 
 /-- the environment: the caller's context may be cancelled at any instant -/
 inductive EnvStep : Net → Net → Prop
-  | cancel (n : Net) : n.cancelled = false → EnvStep n { n with cancelled := true, ecancel := true }
+  | cancel (n : Net) : n.cancelled = false → EnvStep n { n with cancelled := true, ecancel := true, callerCancelled := true }
 
 def Step (n n' : Net) : Prop := SysStep n n' ∨ EnvStep n n'
 
@@ -106,9 +109,13 @@ inductive Reach (n0 : Net) : Net → Prop
   | refl : Reach n0 n0
   | step {n n'} : Reach n0 n → Step n n' → Reach n0 n'
 
+/-- what the call returns (pipeline_tree.go, handlePipelineErr after 1d9ff75): the first stage error a waiter
+    received, else the context's error if the caller cancelled, else nil -/
+def Net.resultIsNil (n : Net) : Bool := !n.sawErr && !n.callerCancelled
+
 /-- a fresh stage with `w` workers -/
 def freshStg (w : Nat) : Stg :=
-  { idle := w, send := 0, err := 0, done := 0, outClosed := false, errbuf := false, waiter := true }
+  { idle := w, send := 0, err := 0, done := 0, outClosed := false, errbuf := false, waiter := true, failed := false }
 
 /-- `todo` items, one stage per entry of `workers` -/
 def init (todo : Nat) (workers : List Nat) : Net :=
